@@ -52,13 +52,13 @@ CHECKS.update({
     'C06': ('exhaustive enumeration of construct placements (flavour x context chain x leaf) + Hypothesis deeper chains vs independent context checker',
             'All placements with chains up to length 3 (quick) / 4 (thorough) are enumerated; deeper chains sampled. The '
             'oracle is a 100-line independent implementation of the README context table; both directions are compared.', '3/C06'),
-    'C10': ('Hypothesis text / token-soup / token-mutation / ill-formed-program fuzzing of the whole pipeline and the CLI; crash, span, render, assemble and file-contract oracles',
+    'C10': ('Hypothesis text / token-soup / token-mutation / ill-formed-program fuzzing of the whole pipeline and the CLI (thorough tier adds atheris/libFuzzer coverage-guided campaigns with the oracle in the target); crash, span, render, assemble and file-contract oracles',
             'Fuzzing with structural generators; the oracle is the totality contract itself (only CompilerError, located, '
             'renderable; output assembles; CLI exit/file behaviour).', '3/C10'),
     'C11': ('exhaustive operator pairs/triples with decorations + Hypothesis random trees; round trip print(min parens)->parse and independent precedence-climbing parser',
             'Pairs and triples of all binary operators in every tree shape are enumerated; deeper trees sampled. Round-trip '
             'and an independent parser are exact oracles for grouping.', '3/C11'),
-    'C12': ('Hypothesis token-spelling/layout generation and raw text; differential vs independent reference tokenizer; layout metamorphosis on tokens and emitted instructions',
+    'C12': ('Hypothesis token-spelling/layout generation and raw text (thorough tier adds atheris/libFuzzer coverage-guided campaigns); differential vs independent reference tokenizer; layout metamorphosis on tokens and emitted instructions',
             'Differential against a hand-written tokenizer on generated spellings and layouts, plus a metamorphic relation '
             '(re-layout never changes tokens or code).', '3/C12'),
 })
